@@ -70,6 +70,19 @@ Theorem C07_qos2_acks_right_after_writes_complete : forall evs pre h id a1 a2 po
   In (Done h (RSuccess [])) (nth (length pre + 3) (run sig_init evs) []).
 Proof. exact qos2_acks_right_after_writes_complete. Qed.
 
+(* "for any number of concurrent callers and any order in which the broker answers": a waiter
+   registered under identifier X is removed only by an acknowledgement of its kind carrying X (or
+   by its caller giving up, or the end of the connection) — after ANY history mid, with any
+   number of other requests registered and acknowledged meanwhile under other identifiers, the
+   request is still blocked waiting for exactly its own acknowledgement; together with
+   C07_completes_at_own_ack: however long its acknowledgement is delayed, it completes then *)
+Theorem C07_pending_waiter_stays : forall evs pre h rk id mid,
+  wf evs = true -> evs = pre ++ Start h rk id :: mid ->
+  (forall e, In e mid -> own_ack (first_kind rk) id e = false) -> ~ In (Cancel h) mid ->
+  no_close (run sig_init evs) ->
+  awaited (state_after sig_init evs) (first_kind rk) id = true.
+Proof. exact pending_waiter_stays. Qed.
+
 (* the same for QoS 2: PUBREL at the first Resume after the first PUBREC, return at the first
    PUBCOMP after that, nothing else; m1 and m2 may contain any number of PUBCOMPs with the
    request's identifier *)
@@ -188,6 +201,7 @@ Print Assumptions C07_completes_only_on_own_ack.
 Print Assumptions C07_completes_at_own_ack.
 Print Assumptions C07_ack_right_after_write_completes.
 Print Assumptions C07_qos2_acks_right_after_writes_complete.
+Print Assumptions C07_pending_waiter_stays.
 Print Assumptions C07_qos2_completes_at_pubcomp.
 Print Assumptions C07_qos2_order.
 Print Assumptions C07_foreign_acks_inert.
